@@ -2,17 +2,20 @@ N = {"quick": 400, "thorough": 6000}
 EXHAUSTIVE = {"quick": False, "thorough": True}
 RULE = ("every run starts with fixed vectors: the witness (100, 90, generate, 110) of theorem interleaved_generate_witness on the direct path (mutating "
         "generate), on the direct path with the request run on a clone, and on the engine path; the stale-snapshot witness of "
-        "engine_direct_assets_differ_witness on both paths; full account snapshots applied item by item; instruments with interleaved requests on both paths. "
+        "engine_direct_assets_differ_witness on both paths; full account snapshots applied item by item; an asset whose first total is not positive (0, -5, 10, 5: theorem asset_zero_peak_witness) on both paths; instruments with "
+        "interleaved requests on both paths. The corpus (corpus/C16K/review_B.ops, run first) holds the hand-made inputs of the theorem review: unknown instrument / asset index on both "
+        "paths and zero-cost exits (panic), zero / negative balances, negative and backward times, duplicate items of one full snapshot, break-even and fee-dominated round trips. "
         "Random cases: 1-3 instruments on two exchanges (3-5 exchange-assets), 50 % engine path (opening + exactly closing fills, 40 % of them with fees, and 20 % position flips - no fee on the flipping fill - through "
         "the real Engine::process with explicit, not necessarily increasing exchange times; single balance snapshots and 25 % full account snapshots of 1-4 items), "
         "50 % direct path (PositionExited records and balance snapshots fed to a long-lived TradingSummaryGenerator); 3-30 (thorough 3-45) events per case, "
-        "0/20/50/90 % of them balance snapshots (random walk over few levels per asset: new peaks, dips, exact recoveries; 20 % equal and 20 % STALE timestamps), "
+        "0/20/50/90 % of them balance snapshots (random walk over few levels per asset: new peaks, dips, exact recoveries; 20 % equal and 20 % STALE timestamps; 8 % of the cases are of the "
+        "`zero-peak` class: levels start at 0 / -10 / -30 and may go down to -40, so that curves begin at or below zero), "
         "PnL biases all-win / all-loss / equal-loss / single-loss-first / mixed / break-even-heavy with entry notionals whose reciprocal is a finite decimal, "
         "exit times advancing, equal and going back, 25 % not whole seconds; a summary request before 5/15/30 % of the events (direct path: 70 % mutating "
         "`gen`, 30 % `peek` on a clone) and 1-3 at the end, over Daily / Annual252 / Annual365 / TimeDelta intervals (10 % exotic: non-whole seconds, sub-second, "
         "negative); 5 % of the cases end with an op on which the code panics (zero entry price, zero quantity, unknown instrument / asset index). Thorough "
         "additionally enumerates, on both paths, every sequence of length <= 4 over {four balance levels at the next time, one level at a stale time, a summary "
-        "request} for one asset (2 x 1 554 cases). A case is distinct by the SHA-1 of its op lines and non-trivial when the implementation's observation block "
+        "request} for one asset (2 x 1 554 cases) and over {totals 0, -5, 10, 5 at the next time, a summary request} (2 x 780 cases). A case is distinct by the SHA-1 of its op lines and non-trivial when the implementation's observation block "
         "changes at least once")
 ASSUMPTIONS = [
     "COMPOSITION of existing models, nothing re-modelled: per instrument the full TearSheetGenerator of sub-check C16M (Metrics.Gen: clock, PnLReturns with the C17 DataSetSummary, the C18 drawdown generators, generate with all ten fields), per asset balance_now + the C18 Drawdown.Sheet, on the engine path behind the C09 register guard (Stale.passes false / Stale.upd false); their own assumptions carry over (props/C16.py, C16M.py, C17.py, C18.py, C09.py)",
@@ -20,7 +23,10 @@ ASSUMPTIONS = [
     "the 1e-18 tolerance bounds what the generator may produce: rust_decimal holds a variance of 1e-11 to 17 significant digits only, so returns are generated such that two different losing returns differ by at least ~1e-4 (integer or one-decimal PnL on notionals <= 200; no fee on the flipping fill of a `flip`, whose remainder position would otherwise close with a loss of ~1e-5: engine path, two such flips, Sortino off by 1.8e-18 relative - found by the extended search of a mutant run and removed from the generator, not from the model)",
     "Decimal::sqrt is a parameter of the model (every theorem holds for every function); the drivers plug in sqrtApprox (root truncated to 30 places); a panic inside rust_decimal's Decimal::sqrt (F10, reachable through scale()) is not modelled and was not observed on the generated inputs",
     "InstrumentIndex / AssetIndex = position in the engine's FnvIndexMaps = position in the summary's maps (C11; TradingSummaryGenerator::init re-keys the instruments by InstrumentNameInternal, which is unique by documentation); the harness looks tear sheets up by instrument NAME / ExchangeAsset key",
-    "every closed position has price_entry_average * quantity_abs_max != 0 and events name an instrument / asset the engine was built with (the code panics otherwise; harness, model and spec all report `panic`)",
+    "an event that names an instrument / asset index the engine was not built with, or closes a position with price_entry_average * quantity_abs_max == 0, makes the code PANIC (instrument_index_mut / asset_index_mut / instrument_mut / asset_mut: 'Panics if .. does not exist'; calculate_pnl_return: Decimal division by zero). The panic is an explicit outcome of the model (Model/KeyedSummary.lean Ev.panics, stepChecked, runChecked, engineSummaryChecked / directSummaryChecked / execChecked = none) and theorems ev_panics_iff / summary_panics_iff / exec_panics_iff say exactly when; harness and both driver modes print `panic` (ONE predicate, Ev.panics, shared by model and spec mode: the `panic` line is correspondence-only). The 'every event history' theorems of sections 1-6 are statements about the TOTAL model functions, which IGNORE an event with an unknown key (modifyAt) and continue with pnl / 0 = 0 (witnesses out_of_range_key_model_ignores, zero_cost_exit_keyed_model_continues); what the code reports on the histories on which it does not panic is summary_checked_full / direct_summary_checked_full",
+    "what 'engine path' means: the theorems start at Ev.position i p, an already computed PositionExited of instrument i, and Ev.balance a s. Fills -> Position -> PositionExited and the routing inside Engine::process / EngineState::update_from_account are NOT in the theorems: the drivers' parser turns `rt` / `flip` ops into exits with the C02 position model (rtExits / flipExits, shared by model and spec mode), the real Engine::process is on the harness side. That step is tied by correspondence only (the `closed ..` lines are compared impl-vs-model, the spec does not print them); engine_direct_instruments_agree compares two identical folds of the model and engine_generate_read_only holds by construction of EngState.exec - both are bookkeeping, the evidence that the real engine path clones and routes correctly is the correspondence",
+    "asset curves whose first applied total is not positive (a balance that starts at 0, or a negative margin balance) are outside C18's documented domain (Drawdown.PositivePeaks): the oracle is SILENT on the three drawdown fields of such an asset and prints its balance only; the model mirrors the code, is compared on every case (generator class `zero-peak`, thorough enumeration over {0, -5, 10, 5}), and theorems asset_nonpositive_first_total / asset_zero_peak_witness state what both report: a non-positive first total is never the start of a drawdown, the decomposition continues from the first higher point (0, -5, 10, 5 -> a 50 % drawdown in progress since the peak 10). Instrument side likewise (C16M: PnL curves whose first value is not positive; measured by the theorem review (audit/sub/report_B.md): of 3778 generated instrument entries the oracle constrains calmar on 395, sortino on 991, sharpe on 1647 - the rest is model-vs-code only)",
+    "drawdown subtraction overflow (`bal 0 0 7.9e28 1; bal 0 10 -7.9e28 1`: the code panics, the exact model continues) is C18's declared number-range boundary; not generated",
     "summary-level clock: on the direct path time_engine_start / time_engine_end are modelled and compared (the harness builds the generator with the real TradingSummaryGenerator::init and both clocks at the engine start); on the engine path Engine::trading_summary_generator reads them from EngineMeta.time_start / HistoricalClock::time(), which depend on the wall clock (C20K): parameters of the model, not compared",
     "engine path: no initial balances are configured (EngineStateBuilder::balances would be one more snapshot at time_engine_start through the same guarded update)",
     "the spec driver (oracle) recomputes every entry from that key's own history: instruments over exactly the key's exited positions (C16M's extended-value specification: silent on sentinel inputs to scale, non-whole-second intervals, results outside the Decimal range, C18 fields of PnL curves whose first value is not positive), assets over the snapshots that are not older than anything delivered before them for that asset (engine path; written without the register: runningMax) resp. over all of them (direct path); after a MUTATING generate on the direct path that happened while an entry had a drawdown in progress the oracle no longer constrains that entry's mean / max drawdown (and Calmar): theorem interleaved_generate_exact says exactly what they are, the concrete model mirrors it and is compared on every case",
@@ -53,24 +59,36 @@ TECHNIQUE = ("Lean 4: composition of the C16M / C17 / C18 / C09 models into the 
              "the start state), refinement of the register-guarded asset generator to the C18 sheet over the non-stale subsequence, an exact characterisation "
              "(by induction over interleavings) of what generate(&mut self) feeds the mean / max generators; kernel-evaluated witnesses; correspondence with the "
              "real Engine::process + trading_summary_generator + generate and with a real long-lived TradingSummaryGenerator")
-LEVEL_TEXT = ("Sub-check of C16. Lean theorems (lean/BarterModel/Props/C16K.lean) over the composed model (lean/BarterModel/Model/KeyedSummary.lean), for every n, m, "
-              "engine start time, risk-free return, interval, sqrt function and every event history, all full strength: summary_instrument_full (engine path: exactly n "
-              "entries, entry i = C16M's full sheet - all ten fields - of exactly instrument i's exited positions in order; unfolded to the specification of each field in "
-              "summary_instrument_fields), summary_asset_full (exactly m entries, entry a = balance_end + the C18 drawdown / mean / max over exactly the NON-STALE "
-              "subsequence of a's snapshots, defined with the C09 register: asset_register_is_C09, non_stale_step; register-free readings non_stale_is_running_max, "
-              "non_stale_snoc, non_stale_of_time_ordered, non_stale_last_is_latest), direct_summary_instrument_full / direct_summary_asset_full (direct path: the same "
-              "instrument entries, asset entries over ALL snapshots), direct_summary_clock / clock_is_running_max, engine_direct_instruments_agree, "
-              "engine_direct_asset_agree_of_time_ordered, engine_asset_is_direct_on_non_stale, the difference engine_direct_assets_differ_witness; frame theorems "
-              "frame_instrument, frame_asset, frame_step, foreign_events, direct_frame; generate: engine_generate_read_only (requests are invisible to the engine and to "
-              "later requests), direct_last_summary, direct_after_entries / direct_exec_entries (every generate reaches every entry), interleaved_generate_exact + "
-              "emitted_unfold (the mean / max generators have been fed, in order, the drawdown each point completes and, for each generate, the drawdown then in "
-              "progress; the DrawdownGenerator itself is never touched), emitted_without_generate (= C18), generate_harmless_when_flat, "
-              "generate_at_flat_moments_is_harmless, direct_interleaved_asset_exact, direct_interleaved_instrument_exact (six fields unaffected, the drawdown fields and "
-              "Calmar exactly), interleaved_generate_witness (100, 90, generate, 110) and repeated_generate_witness; projection_commutes_engine / "
-              "projection_commutes_direct / projSheet_sheetOf (projecting the full summary gives C16's summary of the projected history: link to "
-              "Props.C16.engine_summary_instrument / engine_summary_asset). No `_partial` theorem.")
+LEVEL_TEXT = ("Sub-check of C16. 49 Lean theorems (lean/BarterModel/Props/C16K.lean) over the composed model (lean/BarterModel/Model/KeyedSummary.lean), for every n, m, "
+              "engine start time, risk-free return, interval, sqrt function and every history of events - an event being an already computed PositionExited of instrument i "
+              "(Ev.position) or a balance snapshot of asset a (Ev.balance); the step from fills to PositionExited and the routing in Engine::process are tied by correspondence only. "
+              "Results: summary_instrument_full (engine path: exactly n entries, entry i = C16M's full sheet - all ten fields - of exactly instrument i's exited positions in order; "
+              "unfolded to the specification of each field in summary_instrument_fields), summary_asset_full (exactly m entries, entry a = balance_end + the C18 drawdown / mean / max "
+              "over exactly the NON-STALE subsequence of a's snapshots, defined with the C09 register: asset_register_is_C09; register-free readings non_stale_is_running_max, "
+              "non_stale_snoc, non_stale_of_time_ordered, non_stale_last_is_latest), direct_summary_instrument_full / direct_summary_asset_full (direct path: the same instrument "
+              "entries, asset entries over ALL snapshots), direct_summary_clock / clock_is_running_max, engine_direct_asset_agree_of_time_ordered, engine_asset_is_direct_on_non_stale, "
+              "the difference engine_direct_assets_differ_witness; generate on a long-lived direct generator: direct_after_entries / direct_exec_entries (every generate reaches every "
+              "entry), interleaved_generate_exact (the mean / max generators have been fed, in order, the drawdown each point completes and, for each generate, the drawdown then in "
+              "progress; the DrawdownGenerator itself is never touched), emitted_without_generate (= C18), generate_at_flat_moments_is_harmless, direct_interleaved_asset_exact, "
+              "direct_interleaved_instrument_exact (six fields unaffected, the drawdown fields and Calmar exactly), interleaved_generate_witness (100, 90, generate, 110) and "
+              "repeated_generate_witness; projection_commutes_engine / projection_commutes_direct / projSheet_sheetOf (projecting the full summary gives C16's summary of the projected "
+              "history: link to Props.C16.engine_summary_instrument / engine_summary_asset). All of these are statements about the TOTAL model functions. Where the code panics "
+              "instead: the model's checked runs (Ev.panics, stepChecked / runChecked, engineSummaryChecked, directSummaryChecked, execChecked; the drivers print `panic` exactly when "
+              "they return none) with ev_panics_iff, summary_panics_iff, exec_panics_iff - the code panics iff some event names an instrument index >= n or an asset index >= m or "
+              "closes a position with zero cost of investment - and, for every history on which it does NOT panic, summary_checked_full / direct_summary_checked_full: every event has "
+              "reached exactly the entry of its key (nothing is dropped), entry i is C16M's CHECKED sheet of i's exits, entry a the asset sheet as above; witnesses at the excluded points "
+              "out_of_range_key_model_ignores (the total model reports the summary of the empty history where the code panics) and zero_cost_exit_keyed_model_continues. Asset curves "
+              "outside C18's domain (first total <= 0): asset_nonpositive_first_total (a non-positive first total never starts a drawdown; the decomposition continues from the first "
+              "higher point) and asset_zero_peak_witness (0, -5, 10, 5 on both paths), where the oracle is silent. No `_partial` theorem. Definitional / bookkeeping, not results: "
+              "engine_generate_read_only (holds by construction of EngState.exec), engine_direct_instruments_agree (two identical folds), asset_sheet_fields, emitted_unfold, "
+              "non_stale_step, foreign_events, frame_instrument / frame_asset / frame_step / direct_frame (corollaries of the *_full theorems), direct_last_summary, "
+              "generate_harmless_when_flat, summary_checked_eq.")
 LEVEL_NOTE = ("Trusted: Lean kernel; axioms propext/Classical.choice/Quot.sound only; the composed hand-written models (tied by sampled correspondence on every run: all "
               "fields of every entry of the real TradingSummary on both paths, interleaved generate calls included); harness and driver. Exact rationals instead of "
               "rust_decimal; Decimal::sqrt abstract in the theorems. The engine-path summary clock (wall-clock driven) is not compared. The translator ties of C16 / "
               "C16M / C18 / C09 (kernels_agree_with_source, state_machine_agrees_with_source) cover the step functions composed here; TradingSummaryGenerator's own "
-              "keyed glue (init / update_from_* / generate in summary/mod.rs) and the routing in EngineState::update_from_account are tied by correspondence only.")
+              "keyed glue (init / update_from_* / generate in summary/mod.rs), the routing in EngineState::update_from_account, the engine's read-only clone in "
+              "trading_summary_generator and the step trade -> PositionExited on the engine path are tied by correspondence only: the `closed ..` lines (impl vs model; the drivers compute the exits "
+              "with the C02 position model in their parser, which model and spec mode share) and the `panic` lines (one predicate for both modes) are correspondence-only keys. The oracle "
+              "recomputes every other key from the key's own history with the C16M / C18 specification functions and is silent where ASSUMPTIONS says so (C18 fields of curves whose first "
+              "value is not positive, entries made dirty by a mutating generate, sentinel inputs to scale).")
